@@ -63,6 +63,7 @@ pub struct ProgGen<'a> {
     counters_in_use: Vec<String>,
     fresh: u32,
     gosubs: Vec<(String, Vec<String>)>,
+    sel_depth: u32,
     handlers: Vec<(String, Vec<String>)>,
     subs: Vec<SubInfo>,
     in_sub: bool,
@@ -102,6 +103,7 @@ impl<'a> ProgGen<'a> {
             counters_in_use: vec![],
             fresh: 0,
             gosubs: vec![],
+            sel_depth: 0,
             handlers: vec![],
             subs: vec![],
             in_sub: false,
@@ -321,8 +323,8 @@ impl<'a> ProgGen<'a> {
         if self.opts.jumps_out && depth < self.opts.max_depth && self.rng.chance(1, 14) {
             // leave the enclosing block(s) / loop(s) by a jump
             let c = self.cond(0);
-            if self.in_sub && self.loop_depth > 0 && self.rng.chance(1, 2) {
-                self.feat("exit-sub-in-loop");
+            if self.in_sub && (self.loop_depth > 0 || self.sel_depth > 0) && self.rng.chance(1, 2) {
+                self.feat(if self.sel_depth > 0 { "exit-sub-in-select" } else { "exit-sub-in-loop" });
                 out.push(format!("IF {} THEN EXIT {}", c, self.cur_sub_kw));
             } else if !self.in_sub || depth < 1 {
                 self.feat(if self.loop_depth > 0 { "goto-out-of-loop" } else { "goto-out-of-block" });
@@ -584,12 +586,16 @@ impl<'a> ProgGen<'a> {
                 items.push(item);
             }
             self.emit(out, format!("CASE {}", items.join(", ")));
+            self.sel_depth += 1;
             let b = self.block(depth - 1);
+            self.sel_depth -= 1;
             out.extend(Self::indent(b));
         }
         if self.rng.chance(1, 2) {
             self.emit(out, "CASE ELSE".into());
+            self.sel_depth += 1;
             let b = self.block(depth - 1);
+            self.sel_depth -= 1;
             out.extend(Self::indent(b));
         }
         self.emit(out, "END SELECT".into());
